@@ -143,13 +143,31 @@ def oversize_history(rng, jump=False):
         if h.buflen + frag >= CAP:
             h.emit(step('p', 22, 0x0303, body), 'error TooLarge')
             refused += 1
-            if refused == 2:      # a smaller fragment that still fits is accepted
+            if refused == 1:      # exactly reaching 10 MiB is refused as well ...
+                exact = body[:CAP - h.buflen]
+                h.emit(step('p', 22, 0x0303, exact), 'error TooLarge')
+            if refused == 2:      # ... one byte less is accepted
                 small = body[:max(0, CAP - 1 - h.buflen)]
                 h.buflen += len(small)
                 h.emit(step('p', 22, 0x0303, small), 'incomplete ?')
         else:
             h.buflen += frag
             h.emit(step('p', 22, 0x0303, body), 'incomplete ?')
+    return h
+
+
+def overfull_first_fragment(rng):
+    """a hand-built first fragment already above 10 MiB (TlsRawRecord.data is not bounded by the parser):
+    it is buffered; every later fragment, even an empty one, is refused with TooLarge, state unchanged"""
+    h = Hist()
+    first = bytes([rng.choice((1, 11, 20))]) + (0xffffff).to_bytes(3, 'big') + bytes(CAP + rng.choice((0, 1, 5)) - 4)
+    h.cur, h.buflen = 22, len(first)
+    h.emit(step('p', 22, 0x0303, first), 'incomplete ?')
+    h.emit(step('p', 22, 0x0303, b''), 'error TooLarge')
+    h.emit(step('p', 22, 0x0303, b'\x00'), 'error TooLarge')
+    h.emit(step('n', 22, 0x0303, b''), 'failure NonEmpty')
+    h.reset()
+    h.whole(22, 0x0303, bytes.fromhex('0e000000'), ['(Hs (ServerDone +0))'])
     return h
 
 
@@ -184,6 +202,7 @@ def run(ctx):
     n = 8000 if ctx.thorough else 1200
     hists = [gen_history(rng) for _ in range(n)]
     big = [oversize_history(rng, jump=not ctx.thorough or k > 0) for k in range(3 if ctx.thorough else 1)]
+    big.append(overfull_first_fragment(rng))
     hists += big
     lines = ['rp ' + ' '.join(h.steps) for h in hists]
     impl, model = ctx.run_both(lines)
